@@ -15,7 +15,13 @@ package main
 //	     | COPY <seq> <name> | MOVE <seq> <name> | EXPUNGE | CREATE <name> | DELETE <name>
 //	X CHECK                      barrier, fresh session: LIST + EXAMINE/FETCH of every mailbox, logout
 //
-//	msg   = <rid>:<flags>:<lit>:<mbs>    flags = seen,flagged,… or -    mbs = rid+rid or -
+//	msg   = <rid>:<flags>:<lit>:<mbs>    flags = seen,flagged,… or -    mbs = rid+rid or - (x#1-1000 = x1+…+x1000)
+//	        <prefix>#<a>-<b>:<flags>:<lit>:<mbs> = the messages <prefix><a> … <prefix><b>, all with these flags,
+//	        literal tag and mailboxes (batches on both sides of db.ChunkLimit stay one short line)
+//	flag  = a system flag's lower-case short name (seen = `\Seen` as the imap constants spell it), or the
+//	        spelling itself: `\seen`, `\SEEN`, `SeEn` (system flags; a leading backslash may be left out when a
+//	        letter is upper-case), `$kw`, `$KW`, `$Kw` (keywords are sent as written). The order of the list and
+//	        repeated flags are as written (imap.FlagSet keeps the first spelling of a flag).
 //	mref  = @<mailbox rid> (its current internal id) | #<n> (raw internal id)
 //	sref  = @<message rid> (its current internal id) | #<n> (an internal id nobody has)
 //
@@ -46,7 +52,8 @@ package main
 // acknowledges costs a bounded time.
 //
 // Order of the streams: corpus/C06/*.txt, then cuDirected (one stream per update kind walking through every
-// reachable cell of the kind x variant table, every refused update followed by a valid one), then the random
+// reachable cell of the kind x variant table, every refused update followed by a valid one), then cuDirectedExtra
+// (spelling of flags; sizes of batches and of id lists around db.ChunkLimit), then the random
 // streams. The generator sends a valid, effective update right after every refused one (the pipeline goes on)
 // and aims a fifth of its updates at a random cell of the table. Stats: table.<Kind>.<variant>,
 // table.cells-reachable, table.cells-zero (must be 0), judge.pipe.valid-after-refused.<Kind>.
@@ -75,8 +82,15 @@ const cuRecoveryRID = "GLUON-INTERNAL-RECOVERY-MBOX"
 
 var cuFlagLongTable = map[string]string{"seen": `\Seen`, "flagged": `\Flagged`, "answered": `\Answered`, "draft": `\Draft`, "deleted": `\Deleted`, "recent": `\Recent`}
 
+// cuFlagLong: the spelling of a flag token of a step as it is sent (see the grammar above). The judge has the
+// same function (Driver/DConnUpd.lean spellOf).
 func cuFlagLong(s string) string {
-	if l, ok := cuFlagLongTable[s]; ok {
+	body := strings.TrimPrefix(s, `\`)
+	low := strings.ToLower(body)
+	if l, ok := cuFlagLongTable[low]; ok {
+		if strings.HasPrefix(s, `\`) || body != low {
+			return `\` + body
+		}
 		return l
 	}
 	return s
@@ -123,6 +137,19 @@ func cuMboxIDs(s string) []imap.MailboxID {
 		if m == "@REC" {
 			m = cuRecoveryRID
 		}
+		// <prefix>#<a>-<b> = the ids <prefix><a> … <prefix><b> (lists on both sides of db.ChunkLimit)
+		if i := strings.Index(m, "#"); i >= 0 {
+			if ab := strings.Split(m[i+1:], "-"); len(ab) == 2 {
+				a, errA := strconv.Atoi(ab[0])
+				b, errB := strconv.Atoi(ab[1])
+				if errA == nil && errB == nil && b-a <= 100000 {
+					for k := a; k <= b; k++ {
+						out = append(out, imap.MailboxID(m[:i]+strconv.Itoa(k)))
+					}
+					continue
+				}
+			}
+		}
 		out = append(out, imap.MailboxID(m))
 	}
 	return out
@@ -160,6 +187,37 @@ func parseMsgSpec(s string) (cuMsgSpec, error) {
 		return cuMsgSpec{}, fmt.Errorf("bad message spec %q", s)
 	}
 	return cuMsgSpec{p[0], p[1], p[2], p[3]}, nil
+}
+
+// cuExpandSpecs: the message specs of an MSC step; `<prefix>#<a>-<b>:…` stands for the messages <prefix><a> … <prefix><b>.
+func cuExpandSpecs(list string) ([]cuMsgSpec, error) {
+	var out []cuMsgSpec
+	for _, s := range strings.Split(list, "/") {
+		spec, err := parseMsgSpec(s)
+		if err != nil {
+			return nil, err
+		}
+		i := strings.Index(spec.rid, "#")
+		if i < 0 {
+			out = append(out, spec)
+			continue
+		}
+		ab := strings.Split(spec.rid[i+1:], "-")
+		if len(ab) != 2 {
+			return nil, fmt.Errorf("bad message range %q", s)
+		}
+		a, errA := strconv.Atoi(ab[0])
+		b, errB := strconv.Atoi(ab[1])
+		if errA != nil || errB != nil || b-a > 100000 {
+			return nil, fmt.Errorf("bad message range %q", s)
+		}
+		for k := a; k <= b; k++ {
+			one := spec
+			one.rid = spec.rid[:i] + strconv.Itoa(k)
+			out = append(out, one)
+		}
+	}
+	return out, nil
 }
 
 func (m cuMsgSpec) created() (*imap.MessageCreated, error) {
@@ -363,11 +421,11 @@ func (r *cuRunner) buildUpdate(f []string) (imap.Update, error) {
 			return nil, err
 		}
 		var msgs []*imap.MessageCreated
-		for _, s := range strings.Split(f[3], "/") {
-			spec, err := parseMsgSpec(s)
-			if err != nil {
-				return nil, err
-			}
+		specs, err := cuExpandSpecs(f[3])
+		if err != nil {
+			return nil, err
+		}
+		for _, spec := range specs {
 			m, err := spec.created()
 			if err != nil {
 				return nil, err
@@ -539,7 +597,11 @@ func (r *cuRunner) exec1(step string) (string, error) {
 		if err != nil {
 			return "bad-step", err
 		}
-		res := r.conn.Push(u, r.watch)
+		watch := r.watch
+		if mc, ok := u.(*imap.MessagesCreated); ok {
+			watch += time.Duration(len(mc.Messages)) * 5 * time.Millisecond // a large batch is given time in proportion
+		}
+		res := r.conn.Push(u, watch)
 		r.stats["update."+f[1]]++
 		var word string
 		switch {
@@ -761,7 +823,7 @@ func (r *cuRunner) check() (string, error) {
 	return "CHK" + settled + "~W:" + w + "~" + dump, nil
 }
 
-// dumpDB: M:<iid>,<rid>,<name>,<uidv>,<sub>,<seq>,<uid>.<rowrid>.<msgrid>.<deleted>+…;…~G:<rid>,<flags>,<deleted>;…~DS:<name>,<rid>;…
+// dumpDB: M:<iid>,<rid>,<name>,<uidv>,<sub>,<seq>,<uid>.<rowrid>.<msgrid>.<deleted>+…;…~G:<rid>,<flags>,<deleted>;…~DS:<name>,<rid>;…~C:<next mailbox id>,<uidvalidity generator>~SP:<rid>=<flag as spelled>+…;…
 func (r *cuRunner) dumpDB() (string, error) {
 	d, err := r.openDB()
 	if err != nil {
@@ -866,7 +928,78 @@ func (r *cuRunner) dumpDB() (string, error) {
 	if r.uidv != nil {
 		gen = uint64(r.uidv.GetValue())
 	}
-	return fmt.Sprintf("M:%s~G:%s~DS:%s~C:%d,%d", j(ms), j(gs), j(ds), mseq+1, gen), nil
+	// SP: the flags as they are spelled in message_flags_v2 (G: has them lower-cased), per live remote id
+	spell := map[string][]string{}
+	sr, err := d.Query("SELECT m.remote_id, f.value FROM message_flags_v2 AS f JOIN messages_v2 AS m ON m.id = f.message_id")
+	if err != nil {
+		return "", err
+	}
+	for sr.Next() {
+		var rid, v string
+		if err := sr.Scan(&rid, &v); err != nil {
+			sr.Close()
+			return "", err
+		}
+		if strings.HasPrefix(rid, "DELETED-") || strings.EqualFold(v, imap.FlagRecent) {
+			continue
+		}
+		spell[rid] = append(spell[rid], cuSanitize(v))
+	}
+	sr.Close()
+	var sp []string
+	for rid, l := range spell {
+		sort.Strings(l)
+		sp = append(sp, rid+"="+strings.Join(l, "+"))
+	}
+	sort.Strings(sp)
+	return fmt.Sprintf("M:%s~G:%s~DS:%s~C:%d,%d~SP:%s", j(ms), j(gs), j(ds), mseq+1, gen, j(sp)), nil
+}
+
+// msgSpelledFlags: the flags of the message as message_flags_v2 spells them (sorted).
+func (r *cuRunner) msgSpelledFlags(rid string) []string {
+	d, err := r.openDB()
+	if err != nil {
+		return nil
+	}
+	rows, err := d.Query("SELECT f.value FROM message_flags_v2 AS f JOIN messages_v2 AS m ON m.id = f.message_id WHERE m.remote_id = ?", rid)
+	if err != nil {
+		return nil
+	}
+	defer rows.Close()
+	var out []string
+	for rows.Next() {
+		var v string
+		if rows.Scan(&v) == nil && !strings.EqualFold(v, imap.FlagRecent) {
+			out = append(out, v)
+		}
+	}
+	sort.Strings(out)
+	return out
+}
+
+// msgMboxRids: the remote ids of the mailboxes the message is in right now ("" = none / unknown message).
+func (r *cuRunner) msgMboxRids(rid string) string {
+	d, err := r.openDB()
+	if err != nil {
+		return ""
+	}
+	rows, err := d.Query("SELECT b.remote_id FROM message_to_mailbox AS t JOIN messages_v2 AS m ON m.id = t.message_id JOIN mailboxes_v2 AS b ON b.id = t.mailbox_id WHERE m.remote_id = ? AND m.deleted = 0", rid)
+	if err != nil {
+		return ""
+	}
+	defer rows.Close()
+	var out []string
+	for rows.Next() {
+		var v string
+		if rows.Scan(&v) == nil {
+			if v == cuRecoveryRID {
+				v = "@REC"
+			}
+			out = append(out, v)
+		}
+	}
+	sort.Strings(out)
+	return strings.Join(out, "+")
 }
 
 func cuB01(b bool) string {
@@ -902,19 +1035,89 @@ func newCuGen(r *Rng, nsess int) *cuGen {
 
 var cuFlagPool = []string{"seen", "flagged", "answered", "draft", "$kw"}
 
+// cuMixCase: every second letter upper-case (seen -> sEeN, $kw -> $kW)
+func cuMixCase(s string) string {
+	b := []byte(strings.ToLower(s))
+	n := 0
+	for i, c := range b {
+		if c >= 'a' && c <= 'z' {
+			if n%2 == 1 {
+				b[i] = c - 'a' + 'A'
+			}
+			n++
+		}
+	}
+	return string(b)
+}
+
+// cuSpellTokens: the tokens that spell the flag of this token in the ways a connector or a client may spell it:
+// as the imap constants do, all lower-case, all upper-case, mixed.
+func cuSpellTokens(tok string) []string {
+	key := cuFlagShort(cuFlagLong(tok))
+	if _, sys := cuFlagLongTable[key]; sys {
+		return []string{key, `\` + key, strings.ToUpper(key), cuMixCase(key)}
+	}
+	return []string{key, strings.ToUpper(key), cuMixCase(key)}
+}
+
+// cuFlagToken: the step token that is sent as exactly this spelling.
+func cuFlagToken(spelled string) string {
+	key := cuFlagShort(spelled)
+	if l, sys := cuFlagLongTable[key]; sys {
+		if spelled == l {
+			return key
+		}
+		return spelled // `\…`: taken literally
+	}
+	return spelled
+}
+
+// respell: the same flags, every one spelled differently from `stored` (spellings in the index) where it is there.
+func (g *cuGen) respell(tokens []string, stored []string) []string {
+	have := map[string]string{}
+	for _, s := range stored {
+		have[cuFlagShort(s)] = s
+	}
+	out := make([]string, 0, len(tokens))
+	for _, t := range tokens {
+		var cands []string
+		for _, c := range cuSpellTokens(t) {
+			if cuFlagLong(c) != have[cuFlagShort(cuFlagLong(t))] {
+				cands = append(cands, c)
+			}
+		}
+		out = append(out, Pick(g.r, cands))
+	}
+	return out
+}
+
+// spell: mostly the spelling of the imap constants, sometimes another one
+func (g *cuGen) spell(tok string) string {
+	if g.r.Chance(2, 3) {
+		return tok
+	}
+	return Pick(g.r, cuSpellTokens(tok))
+}
+
 func (g *cuGen) flags() string {
 	r := g.r
 	switch r.Intn(5) {
 	case 0:
 		return "-"
 	case 1, 2:
-		return Pick(r, cuFlagPool)
+		return g.spell(Pick(r, cuFlagPool))
 	default:
 		a, b := Pick(r, cuFlagPool), Pick(r, cuFlagPool)
 		if a == b {
-			return a
+			if r.Chance(1, 3) {
+				return g.spell(a) + "," + g.spell(a) // the same flag twice, maybe spelled in two ways
+			}
+			return g.spell(a)
 		}
-		return a + "," + b
+		if r.Chance(1, 8) {
+			return g.spell(a) + "," + g.spell(b) + "," + g.spell(a)
+		}
+		return g.spell(a) + "," + g.spell(b)
 	}
 }
 
@@ -1131,7 +1334,10 @@ var cuKinds = []string{"MailboxCreated", "MailboxDeleted", "MailboxUpdated", "Ma
 
 // cuVariants of an update: valid (and effective) | names an id the server does not know | names the protected
 // recovery mailbox by id | by name | the same update delivered again right away | restates what the index says.
-var cuVariants = []string{"valid", "unknown-id", "protected-id", "protected-name", "duplicate", "restating"}
+// restating-other-spelling: restates, and at least one flag is spelled in another letter case than the index has it;
+// restating-other-order: restates, and the flag list is not the sorted duplicate-free list (other order, repeats).
+var cuVariants = []string{"valid", "unknown-id", "protected-id", "protected-name", "duplicate", "restating",
+	"restating-other-spelling", "restating-other-order"}
 
 // cuReachable: the cells of the table that exist at all through the public connector API (the others are "n/a":
 // MailboxCreated of an unknown id IS the valid case; kinds that name messages only cannot name a mailbox;
@@ -1142,12 +1348,12 @@ var cuReachable = map[string]string{
 	"MailboxDeleted":          "valid unknown-id protected-id duplicate restating",
 	"MailboxUpdated":          "valid unknown-id protected-id protected-name duplicate restating",
 	"MailboxIDChanged":        "valid unknown-id protected-id duplicate restating",
-	"MessagesCreated":         "valid unknown-id protected-id duplicate restating",
-	"MessageMailboxesUpdated": "valid unknown-id protected-id duplicate restating",
-	"MessageFlagsUpdated":     "valid unknown-id duplicate restating",
+	"MessagesCreated":         "valid unknown-id protected-id duplicate restating restating-other-spelling",
+	"MessageMailboxesUpdated": "valid unknown-id protected-id duplicate restating restating-other-spelling restating-other-order",
+	"MessageFlagsUpdated":     "valid unknown-id duplicate restating restating-other-spelling restating-other-order",
 	"MessageIDChanged":        "valid unknown-id duplicate restating",
 	"MessageDeleted":          "valid unknown-id duplicate restating",
-	"MessageUpdated":          "valid unknown-id protected-id duplicate restating",
+	"MessageUpdated":          "valid unknown-id protected-id duplicate restating restating-other-spelling restating-other-order",
 	"UIDValidityBumped":       "valid duplicate",
 	"Noop":                    "valid duplicate restating",
 	"Unknown":                 "duplicate",
@@ -1205,6 +1411,63 @@ var cuDirected = map[string][]string{
 	"Unknown":           {"S0 LOGIN", "S0 SELECT mb1", "U BAD", "U MC d1 dbox1", "U BAD", "U BAD", "U MSC 0 d1:seen:l1:mb1", "X CHECK"},
 }
 
+// cuNamedStream: a directed stream that is not about one kind of update but about one dimension of the inputs.
+type cuNamedStream struct {
+	name  string
+	steps []string
+}
+
+// cuDirectedExtra: run on every check after cuDirected, whatever the seed (the setup is put in front).
+//
+// spelling: flags of updates and of client commands in every letter case relative to what the index holds (as the
+// imap constants spell them, lower, upper, mixed; system flags and keywords), restating updates that differ from the
+// index only in spelling, in the order of the list, or by repeating a flag; S0 watches mb1 and must stay silent.
+//
+// sizes-*: MessagesCreated batches on both sides of db.ChunkLimit (the SQL layer binds at most that many values
+// per statement) and of its divisor 2 (two values per row): 1, 2, H-1, H, H+1, L-1, L, L+1, L+H, 2L+1 messages for
+// one mailbox, spread over several mailboxes, with and without flags (flag rows are chunked on their own), a batch
+// delivered twice; S0 watches the target mailbox: its EXISTS count must be the size of the batch.
+func cuDirectedExtra() []cuNamedStream {
+	L := db.ChunkLimit
+	H := L / 2
+	rng := func(prefix string, n int, flags, lit, mbs string) string {
+		return fmt.Sprintf("%s#1-%d:%s:%s:%s", prefix, n, flags, lit, mbs)
+	}
+	one := func(prefix string, n int) string { return "U MSC 0 " + rng(prefix, n, "-", "l1", "mb1") }
+	return []cuNamedStream{
+		{"spelling", []string{"S0 LOGIN", "S0 SELECT mb1",
+			`U MSC 0 s1:\seen,$Kw:l1:mb1/s2:FLAGGED,\flagged,seen:l1:mb1+mb2/s3:$KW,AnSwErEd:l2:mb1`,
+			"U MFU s1 seen,$kw", "U MFU s1 $KW,SEEN", `U MFU s1 \seen,$Kw`, `U MFU s1 seen,SEEN,\seen,$kw,$KW`,
+			"U MMU s1 mb1 SeEn,$kW", "U MMU s2 mb2+mb1 seen,flagged", `U MMU s2 mb1+mb2 \SEEN,\FLAGGED,\seen`,
+			"U MSU 0 s1:SEEN,$KW:l1:mb1", `U MSU 1 s2:\flagged,\SEEN:l1:mb2+mb1`, "U MSU 0 s3:answered,$kw:l2:mb1",
+			"U MSC 1 s1:SEEN:l1:mb1", "U MSC 0 s3:ANSWERED,$Kw:l2:mb1/s1:-:l1:mb1",
+			"U MFU s1 SEEN,$KW,flagged", `U MFU s1 \FLAGGED`, "U MFU s1 flagged", `U MFU s1 \flagged,Draft`, "U MFU s1 DRAFT,FLAGGED",
+			`S0 STORE 1 + \seen`, "U MFU s1 seen,flagged,draft", `S0 STORE 1 - \SEEN`, "U MFU s1 draft,flagged",
+			"S0 STORE 2 + ANSWERED", "U MFU s2 flagged,seen,answered", "U MMU s2 mb1+mb2 answered,seen,flagged",
+			`S0 APPEND mb1 \seen,FLAGGED x1`, "U MFU a1 seen,flagged", `U MMU a1 mb1 \FLAGGED,\SEEN`, "U MFU a1 flagged,seen,flagged",
+			"S0 COPY 1 mb2", "U MMU s1 mb1+mb2 Draft,Flagged", "U MSU 0 s1:draft,flagged,DRAFT:l1:mb2+mb1",
+			"X CHECK"}},
+		{"sizes-half", []string{"S0 LOGIN", "S0 SELECT mb1",
+			one("a", 1), one("b", 2), one("c", H-1), one("d", H), one("e", H+1), one("e", H+1), "X CHECK"}},
+		{"sizes-limit", []string{"S0 LOGIN", "S0 SELECT mb1", "S1 LOGIN", "S1 SELECT mb2",
+			one("a", L-1), "U MSC 0 " + rng("b", L, "-", "l1", "mb2"), "U MSC 1 " + rng("c", L+1, "-", "l2", "mb1+nomb"),
+			// lists of mailbox ids (most of them unknown to the server: dropped) around the limit, the known ones last
+			fmt.Sprintf("U MMU a1 x#1-%d+mb2 seen", L), fmt.Sprintf("U MMU a1 mb1+x#1-%d+mb2 seen", L-2),
+			fmt.Sprintf("U MMU a1 x#1-%d+mb2+mb1 SEEN", 2*L-1), fmt.Sprintf("U MSC 1 z1:-:l1:x#1-%d+mb2+y#1-%d+mb1", L, L),
+			"X CHECK"}},
+		{"sizes-above", []string{"S0 LOGIN", "S0 SELECT mb1", "S1 LOGIN", "S1 SELECT mb2",
+			one("a", L+H), "U MSC 0 " + rng("b", 2*L+1, "-", "l1", "mb2"), "X CHECK"}},
+		{"sizes-spread", []string{"S0 LOGIN", "S0 SELECT mb1", "S1 LOGIN", "S1 SELECT mb2",
+			// H+1 each for two mailboxes and H/2 for both (per mailbox: no multiple of H); flag rows: 2 per message
+			"U MSC 0 " + rng("p", H+1, "-", "l1", "mb1") + "/" + rng("q", H+1, `seen,\flagged`, "l2", "mb2") + "/" + rng("r", H/2, "$kw", "l1", "mb1+mb2"),
+			// more than L messages to create, fewer than H for every mailbox
+			"U MSC 0 " + rng("t", L/3+2, "-", "l1", "0") + "/" + rng("u", L/3, "seen", "l1", "mb1") + "/" + rng("v", L/3, "-", "l2", "mb2"),
+			// known and new messages mixed: H known (already in mb2), H+1 new
+			"U MSC 0 " + rng("q", H, "-", "l2", "mb1") + "/" + rng("w", H+1, "-", "l1", "mb1"),
+			"U MFU q1 FLAGGED,seen", "X CHECK"}},
+	}
+}
+
 func (g *cuGen) fresh(prefix string) string {
 	g.nMbox++
 	return fmt.Sprintf("%s%d", prefix, g.nMbox)
@@ -1238,6 +1501,25 @@ func (g *cuGen) liveMsg(run *cuRunner) string {
 		return ""
 	}
 	return Pick(g.r, l)
+}
+
+// liveFlagged: a live message that has flags in the index, and those flags as the index spells them
+// (needLit: the generator knows its literal tag).
+func (g *cuGen) liveFlagged(run *cuRunner, needLit bool) (string, []string) {
+	var l []string
+	for _, rid := range append(append([]string{}, g.msgRids...), run.conn.remoteMsgs()...) {
+		if needLit && g.msgLit[rid] == "" {
+			continue
+		}
+		if _, ok := run.msgInternalID(rid); ok && len(run.msgSpelledFlags(rid)) > 0 {
+			l = append(l, rid)
+		}
+	}
+	if len(l) == 0 {
+		return "", nil
+	}
+	rid := Pick(g.r, l)
+	return rid, run.msgSpelledFlags(rid)
 }
 
 func (g *cuGen) liveMbs(run *cuRunner, extra ...string) string {
@@ -1448,6 +1730,53 @@ func (g *cuGen) variant(run *cuRunner, kind, v string) string {
 		if msg != "" && g.msgMbs[msg] != "" && g.msgLit[msg] != "" {
 			return fmt.Sprintf("U MSU %d %s:%s:%s:%s", r.Intn(2), msg, g.msgFlags[msg], g.msgLit[msg], g.msgMbs[msg])
 		}
+	case "MessageFlagsUpdated.restating-other-spelling", "MessageFlagsUpdated.restating-other-order",
+		"MessageMailboxesUpdated.restating-other-spelling", "MessageMailboxesUpdated.restating-other-order",
+		"MessageUpdated.restating-other-spelling", "MessageUpdated.restating-other-order",
+		"MessagesCreated.restating-other-spelling":
+		// what the index says about a live message, said again - in other letters / in another order
+		rid, stored := g.liveFlagged(run, kind == "MessageUpdated" || kind == "MessagesCreated")
+		if rid == "" {
+			return ""
+		}
+		var toks []string
+		for _, sp := range stored {
+			toks = append(toks, cuFlagToken(sp))
+		}
+		if strings.HasSuffix(v, "other-spelling") {
+			toks = g.respell(toks, stored)
+			if r.Chance(1, 3) {
+				toks = append(toks, g.respell(toks[:1], stored)...) // and one of them once more
+			}
+			for i := len(toks) - 1; i > 0; i-- {
+				j := r.Intn(i + 1)
+				toks[i], toks[j] = toks[j], toks[i]
+			}
+		} else {
+			// descending order of the names the dump sorts by; a single flag is said twice
+			sort.Slice(toks, func(i, j int) bool { return cuFlagShort(cuFlagLong(toks[i])) > cuFlagShort(cuFlagLong(toks[j])) })
+			if len(toks) == 1 || r.Chance(1, 3) {
+				toks = append(toks, toks[0])
+			}
+		}
+		fl := strings.Join(toks, ",")
+		mbs := run.msgMboxRids(rid)
+		if mbs == "" {
+			mbs = "-"
+		} else if p := strings.Split(mbs, "+"); len(p) > 1 && r.Chance(1, 2) {
+			p[0], p[len(p)-1] = p[len(p)-1], p[0]
+			mbs = strings.Join(p, "+")
+		}
+		switch kind {
+		case "MessageFlagsUpdated":
+			return fmt.Sprintf("U MFU %s %s", rid, fl)
+		case "MessageMailboxesUpdated":
+			return fmt.Sprintf("U MMU %s %s %s", rid, mbs, fl)
+		case "MessageUpdated":
+			return fmt.Sprintf("U MSU %d %s:%s:%s:%s", r.Intn(2), rid, fl, g.msgLit[rid], mbs)
+		default:
+			return fmt.Sprintf("U MSC %d %s:%s:%s:%s", r.Intn(2), rid, fl, g.msgLit[rid], mbs)
+		}
 	case "UIDValidityBumped.valid":
 		return "U UVB"
 	case "Noop.valid", "Noop.restating":
@@ -1546,7 +1875,7 @@ func (g *cuGen) next(run *cuRunner) string {
 	case k < 5:
 		return fmt.Sprintf("S%d APPEND %s %s %s", i, name, g.flags(), Pick(r, []string{"x1", "x2"}))
 	case k < 10:
-		return fmt.Sprintf("S%d STORE %s %s %s", i, seq, Pick(r, []string{"+", "-"}), Pick(r, []string{"seen", "flagged", "answered", "deleted"}))
+		return fmt.Sprintf("S%d STORE %s %s %s", i, seq, Pick(r, []string{"+", "-"}), g.spell(Pick(r, []string{"seen", "flagged", "answered", "deleted"})))
 	case k < 13:
 		return fmt.Sprintf("S%d COPY %s %s", i, seq, name)
 	case k < 15:
@@ -1743,6 +2072,42 @@ func cuAckMinimise(steps []string, cls string) (*cuRunner, string) {
 	return nil, ""
 }
 
+// cuStepMinimise: the setup, the LOGIN / SELECT steps before step k (the step named by the verdict) and step k;
+// returned if it shows the same class of failure.
+func cuStepMinimise(steps []string, verdict, cls string) (*cuRunner, string) {
+	f := strings.Fields(verdict)
+	k := 0
+	for i, w := range f {
+		if w == "step" && i+1 < len(f) {
+			k = atoi(f[i+1])
+			break
+		}
+	}
+	if k <= len(cuSetup) || k > len(steps) {
+		return nil, ""
+	}
+	var cand []string
+	for i, st := range steps[:k-1] {
+		w := strings.Fields(st)
+		if i < len(cuSetup) || (strings.HasPrefix(w[0], "S") && len(w) > 1 && (w[1] == "LOGIN" || w[1] == "SELECT")) {
+			cand = append(cand, st)
+		}
+	}
+	cand = append(cand, steps[k-1])
+	if len(cand) >= len(steps) {
+		return nil, ""
+	}
+	run, err := runCuStream(nil, 0, cand)
+	if run == nil || err != nil {
+		return nil, ""
+	}
+	v, _ := cuVerdict(run)
+	if part, ok := cuViolationClasses(v)[cls]; ok {
+		return run, part
+	}
+	return nil, ""
+}
+
 // cuParseReplay: the steps of a replay file and the limits named in its first line.
 func cuParseReplay(text string) ([]string, string) {
 	lim := "default"
@@ -1787,6 +2152,9 @@ func runCuOracle(args []string) int {
 		text += fmt.Sprintf("# property C06: %s\n# %s\n# replay: ./check C06 --replay <this file>\n", verdict, note)
 		for i, o := range obs {
 			if i < len(st) {
+				if len(o) > 1500 {
+					o = fmt.Sprintf("%s…(%d bytes)", o[:1500], len(o))
+				}
 				text += fmt.Sprintf("# observed %-40s => %s\n", st[i], o)
 			}
 		}
@@ -1816,10 +2184,19 @@ func runCuOracle(args []string) int {
 				}
 			}
 		}
+		// batch sizes of valid MessagesCreated relative to db.ChunkLimit (classes counted by the judge)
+		sizeHoles := 0
+		for _, c := range []string{"one-mailbox.lt-half", "one-mailbox.eq-half", "one-mailbox.short-last-chunk", "one-mailbox.multiple-of-half", "total.gt-limit", "total.le-limit"} {
+			if res.Stats["judge.msc.size."+c] == 0 {
+				sizeHoles++
+				holes = append(holes, "size:"+c)
+			}
+		}
+		res.Stats["sizes.classes-zero"] = sizeHoles
 		res.Stats["table.cells-reachable"] = cells
 		res.Stats["table.cells-zero"] = zero
-		if zero > 0 {
-			fmt.Fprintln(os.Stderr, "kind x variant cells never exercised:", strings.Join(holes, " "))
+		if zero > 0 || sizeHoles > 0 {
+			fmt.Fprintln(os.Stderr, "kind x variant cells / size classes never exercised:", strings.Join(holes, " "))
 		}
 	}
 	finish := func() int {
@@ -1933,6 +2310,25 @@ func runCuOracle(args []string) int {
 					vv, obs, st = part, rs.out, rs.steps
 					note = fmt.Sprintf("the connector steps up to and including the update in question; cut down from %d steps (%s)", len(run.steps), origin)
 				}
+			case strings.HasPrefix(origin, "directed stream"):
+				// a long directed stream: does the step the judge points at fail by itself (after the setup and the
+				// logins / selects before it)? One extra run.
+				if rs, part := cuStepMinimise(run.steps, vv, cls); rs != nil {
+					vv, obs, st = part, rs.out, rs.steps
+					note = fmt.Sprintf("the step in question after the setup; cut down from %d steps (%s)", len(run.steps), origin)
+				} else if !strings.Contains(strings.Join(run.steps, " "), "#") {
+					// it needs more of the steps before it: the general shrinker (streams of small updates only:
+					// every attempt is one server run)
+					small := shrinkCu(run.steps, func(x string) bool { _, ok := cuViolationClasses(x)[cls]; return ok }, 40)
+					if rs, _ := runCuStream(nil, 0, small); rs != nil && len(small) < len(run.steps) {
+						if x, _ := cuVerdict(rs); x != "" {
+							if part, ok := cuViolationClasses(x)[cls]; ok {
+								vv, obs, st = part, rs.out, rs.steps
+								note = fmt.Sprintf("minimised from %d steps (%s)", len(run.steps), origin)
+							}
+						}
+					}
+				}
 			case shrink:
 				small := shrinkCu(run.steps, func(x string) bool { _, ok := cuViolationClasses(x)[cls]; return ok }, 60)
 				if rs, _ := runCuStream(nil, 0, small); rs != nil {
@@ -2010,6 +2406,29 @@ func runCuOracle(args []string) int {
 			continue
 		}
 		judged(run, "directed stream "+kind, false)
+	}
+	// then the dimensions that cut across the kinds: spelling of flags, sizes of batches
+	for _, ds := range cuDirectedExtra() {
+		if !budgetLeft() {
+			break
+		}
+		run, err := runCuStream(nil, 0, append(append([]string{}, cuSetup...), ds.steps...))
+		if run == nil {
+			res.Stats["setup-failed"]++
+			continue
+		}
+		res.Evaluations++
+		res.Stats["directed.streams"]++
+		res.Stats["directed."+ds.name]++
+		res.Stats["steps"] += len(run.steps)
+		for _, key := range sortedKeys(run.stats) {
+			res.Stats[key] += run.stats[key]
+		}
+		if err != nil {
+			report(run.steps, run.out, "directed stream "+ds.name+" aborted: "+err.Error(), "directed stream")
+			continue
+		}
+		judged(run, "directed stream "+ds.name, false)
 	}
 	total := *n + *limN
 	for k := 0; k < total && budgetLeft(); k++ {
